@@ -22,7 +22,6 @@ RULE = ("(a) the full cross product of 144 table variants: all 20736 ordered pai
         "column names, compared with a reference (table, column) collection computed from the program data. Non-trivial: pairs that are equal but not "
         "identical or differ in exactly one dimension; expressions mentioning >= 2 tables sharing a column name. distinct = distinct pair / expression.")
 ASSUMPTIONS = [
-    "a type that defines __eq__ without __hash__ (Schema) is unhashable by Python's rules; that is recorded, not counted as a violation",
     "Term.__eq__ builds a criterion by design, so terms are outside the equality laws and only subject to the collection check",
     "table identity is the library's documented (name, schema path, alias)",
 ]
@@ -105,6 +104,9 @@ def check_pair(la, a, lb, b, a2, kind):
     if (a != b) != (not eq_ab):
         out.append((mksig(tname, "ne_is_not_eq", kind), "%s vs %s" % (la, lb)))
     ha, hb = safe_hash(a), safe_hash(b)
+    if ha is None:
+        # the property speaks of the hashes of tables, schemas, aliased queries and query builders: each of them has one
+        out.append((mksig(tname, "unhashable"), "%s (%s) defines == but cannot be hashed: no membership test in a set or dict is possible" % (la, type(a).__name__)))
     if eq_ab and ha is not None and hb is not None and ha != hb:
         out.append((mksig(tname, "eq_implies_hash", kind), "%s == %s but their hashes differ" % (la, lb)))
     # equality unchanged by rendering
